@@ -136,7 +136,7 @@ class HistSat(Hist):
         s = self.pick(rng, lambda s: len(s.net.inputs) <= 8 and s.net.is_acyclic())
         if s is None:
             return
-        net = s.net
+        net = self.reread(s)
         n = len(net.inputs)
         k = len(net.outputs)
         mode = weighted_choice(rng, [('none', 3), ('subset', 3), ('repeat', 1), ('empty', 1), ('single', 3), ('from_circuit', 2)])
@@ -256,7 +256,7 @@ class HistSat(Hist):
         s = self.pick(rng, lambda s: len(s.net.inputs) <= 8 and s.net.is_acyclic())
         if s is None:
             return
-        net = s.net
+        net = self.reread(s)
         n = len(net.inputs)
         S = self.m['sat']
         name = rng.choice(SOLVER_ENUM_NAMES)
